@@ -149,6 +149,18 @@ class GymClient:
             acts = acts[: rr.randint(2, len(acts))]
             self.actions = acts
             self.data = dict(self.data, action_space=acts)
+            rf = dict(self.data['reset_function'])
+            if 'shape' in rf and rr.random() < 0.6:
+                # a non-square variant of the shipped shape (all shipped shapes are square)
+                hh, ww = rf['shape']
+                name = rf['name']
+                if name in ('empty', 'dynamic_obstacles', 'teleport', 'keydoor'):
+                    rf['shape'] = rr.choice([[hh, ww + rr.choice([3, 4, 6])], [hh + rr.choice([1, 3]), ww], [max(4, hh - 1) if name != 'keydoor' else hh, ww + 5]])
+                elif name in ('crossing', 'memory'):
+                    rf['shape'] = rr.choice([[hh, ww + rr.choice([2, 4, 6])], [hh + 2, ww]])
+                elif name in ('rooms', 'memory_rooms'):
+                    rf['shape'] = rr.choice([[hh, ww + rr.choice([3, 4])], [hh + 2, ww]])
+                self.data['reset_function'] = rf
             import copy as _copy
 
             inner = factory_env_from_data(_copy.deepcopy(self.data))
